@@ -520,6 +520,10 @@ def check_noplan(case):
 # ------------------------------------------------------------------------------------------------ ENHSP
 
 CASEFN = {"as-written": lambda s: s, "upper": str.upper, "lower": str.lower}
+# per-line casing for ENHSP files: (token, line index) -> token
+LINE_CASEFN = {"as-written": lambda s, i: s, "upper": lambda s, i: s.upper(), "lower": lambda s, i: s.lower(),
+               "first-line-lower-rest-upper": lambda s, i: s.lower() if i == 0 else s.upper(),
+               "odd-lines-upper": lambda s, i: s.upper() if i % 2 else s.lower()}
 ENHSP_LAYOUTS = [("flush", "", ""), ("indented", "  ", ""), ("trailing-blanks", "", "  "), ("both", " ", " \t")]
 
 
@@ -531,12 +535,12 @@ def check_enhsp(case):
     exp = expected(steps)
     r.nontrivial = n >= 2
     seen = set()
-    for cname, fn, final_nl, (lname, lead, trail) in [(c, f, nl, lay) for c, f in CASEFN.items() for nl in (True, False)
+    for cname, fn, final_nl, (lname, lead, trail) in [(c, f, nl, lay) for c, f in LINE_CASEFN.items() for nl in (True, False)
                                                       for lay in ENHSP_LAYOUTS]:
-        if lname != "flush" and cname == "lower":
+        if lname != "flush" and cname not in ("as-written", "upper"):
             continue
         if True:
-            text = "\n".join(lead + "(" + " ".join(fn(t) for t in s) + ")" + trail for s in steps)
+            text = "\n".join(lead + "(" + " ".join(fn(t, i) for t in s) + ")" + trail for i, s in enumerate(steps))
             if final_nl and n:
                 text += "\n"
             if text in seen:
